@@ -16,7 +16,10 @@ package main
 //   invalid-id  rejected SetCellStyle/SetRowStyle/SetColStyle leave the stored styles unchanged
 
 import (
+	"archive/zip"
+	"bytes"
 	"fmt"
+	"io"
 	"math"
 	"strconv"
 	"strings"
@@ -379,6 +382,8 @@ type c17WB struct {
 	firstRead map[int]string // id -> canonical definition when first seen
 	firstLine map[int]int
 	issued    map[string]int // encoded request -> id first returned
+	loose     bool            // opened from a file whose count attributes differ from the element counts
+	prevCnt   map[string][2]int
 	dupCur    map[string]bool // request is a plain currency format whose code was already in numFmts when first registered
 	nxf       int
 	cell      map[c17Key]int
@@ -476,6 +481,73 @@ func (h *c17H) getEnc(id int) (string, bool) {
 	return c17EncStyle(st), true
 }
 
+// c17OpenWithCounts builds a workbook as a consumer would receive it from another producer: the
+// package of NewFile() with the count attributes of xl/styles.xml rewritten, opened with OpenReader.
+func c17OpenWithCounts(fonts, fills, borders, xfs int) (*xl.File, error) {
+	f := xl.NewFile()
+	buf, err := f.WriteToBuffer()
+	f.Close()
+	if err != nil {
+		return nil, err
+	}
+	zr, err := zip.NewReader(bytes.NewReader(buf.Bytes()), int64(buf.Len()))
+	if err != nil {
+		return nil, err
+	}
+	var out bytes.Buffer
+	zw := zip.NewWriter(&out)
+	for _, zf := range zr.File {
+		rc, err := zf.Open()
+		if err != nil {
+			return nil, err
+		}
+		data, _ := io.ReadAll(rc)
+		rc.Close()
+		if zf.Name == "xl/styles.xml" {
+			x := string(data)
+			for _, rp := range [][2]string{
+				{`<fonts count="1"`, fmt.Sprintf(`<fonts count="%d"`, fonts)},
+				{`<fills count="2"`, fmt.Sprintf(`<fills count="%d"`, fills)},
+				{`<borders count="1"`, fmt.Sprintf(`<borders count="%d"`, borders)},
+				{`<cellXfs count="1"`, fmt.Sprintf(`<cellXfs count="%d"`, xfs)},
+			} {
+				if !strings.Contains(x, rp[0]) {
+					return nil, fmt.Errorf("styles.xml: %s not found", rp[0])
+				}
+				x = strings.Replace(x, rp[0], rp[1], 1)
+			}
+			data = []byte(x)
+		}
+		w, err := zw.Create(zf.Name)
+		if err != nil {
+			return nil, err
+		}
+		w.Write(data)
+	}
+	zw.Close()
+	return xl.OpenReader(bytes.NewReader(out.Bytes()))
+}
+
+func (h *c17H) doResetCounts(line string, a []int) {
+	if h.wb != nil && h.wb.f != nil {
+		h.wb.f.Close()
+	}
+	f, err := c17OpenWithCounts(a[0], a[1], a[2], a[3])
+	must(err)
+	h.wb = &c17WB{f: f, loose: true, firstRead: map[int]string{}, firstLine: map[int]int{}, issued: map[string]int{}, dupCur: map[string]bool{}, cell: map[c17Key]int{}, row: map[int]int{}, col: map[int]int{}}
+	ln := h.op(line, "ok "+xl.VerifC17DumpStyles(f))
+	counts, nxf, _ := c17Counts(f)
+	h.wb.nxf = nxf
+	h.wb.prevCnt = c17ParseCounts(counts)
+	h.r.Stat("case:count-attributes-differ")
+	for id := 0; id < nxf; id++ {
+		if e, ok := h.getEnc(id); ok {
+			h.wb.firstRead[id] = c17Canon(e)
+			h.wb.firstLine[id] = ln
+		}
+	}
+}
+
 func (h *c17H) doReset() {
 	if h.wb != nil && h.wb.f != nil {
 		h.wb.f.Close()
@@ -503,8 +575,36 @@ func (h *c17H) doReset() {
 }
 
 // after a registry operation: counts oracle, stability oracle, bookkeeping of new ids
+// c17ParseCounts reads "name=len/count ..." into a map.
+func c17ParseCounts(s string) map[string][2]int {
+	m := map[string][2]int{}
+	for _, w := range strings.Fields(s) {
+		kv := strings.SplitN(w, "=", 2)
+		p := strings.Split(kv[1], "/")
+		if len(p) != 2 {
+			continue
+		}
+		a, _ := strconv.Atoi(p[0])
+		b, _ := strconv.Atoi(p[1])
+		m[kv[0]] = [2]int{a, b}
+	}
+	return m
+}
+
 func (h *c17H) afterRegistryOp(ln int, counts string, nxf int, cok bool) {
-	if !cok {
+	if h.wb.loose {
+		// count attributes were wrong when the file was opened: a table that grew must have Count = len,
+		// a table that did not grow keeps its Count
+		cur := c17ParseCounts(counts)
+		for k, v := range cur {
+			pv, seen := h.wb.prevCnt[k]
+			h.r.Stat("counts:loose-checked")
+			if seen && !(v == pv || v[0] == v[1]) {
+				h.r.Fail("counts:not-repaired", fmt.Sprintf("table %s went from len/Count %d/%d to %d/%d: an appended table must get Count = len, an untouched one keeps its Count", k, pv[0], pv[1], v[0], v[1]), ln, h.replay())
+			}
+		}
+		h.wb.prevCnt = cur
+	} else if !cok {
 		h.r.Fail("counts", "a style table's Count field differs from its length: "+counts, ln, h.replay())
 	}
 	h.declareNew()
@@ -910,7 +1010,7 @@ func (h *c17H) exec(line string) {
 	if len(w) == 0 || strings.HasPrefix(w[0], "#") {
 		return
 	}
-	if h.wb == nil && w[0] != "reset" && w[0] != "decl" {
+	if h.wb == nil && w[0] != "reset" && w[0] != "resetc" && w[0] != "decl" {
 		h.doReset()
 	}
 	ints := func(from int) []int {
@@ -924,6 +1024,8 @@ func (h *c17H) exec(line string) {
 	switch {
 	case w[0] == "reset":
 		h.doReset()
+	case w[0] == "resetc" && len(w) == 5:
+		h.doResetCounts(line, ints(1))
 	case w[0] == "decl":
 		// environment line of a recorded transcript: re-derived here
 	case w[0] == "new":
@@ -1434,12 +1536,14 @@ func (h *c17H) observe(rng *Rng, cs, rs []int) {
 	}
 }
 
-func (h *c17H) genCase(rng *Rng, nops int, gridHeavy bool) {
+func (h *c17H) genCase(rng *Rng, nops int, gridHeavy bool) { h.genCaseFrom(rng, nops, gridHeavy, "reset") }
+
+func (h *c17H) genCaseFrom(rng *Rng, nops int, gridHeavy bool, resetLine string) {
 	if gridHeavy && rng.Chance(12) {
 		h.genFlatCase(rng, nops)
 		return
 	}
-	h.exec("reset")
+	h.exec(resetLine)
 	pal := c17GenPalette(rng)
 	var reqs []string
 	for i := 0; i < nops; i++ {
@@ -1659,6 +1763,15 @@ func runC17(r *Run, rng *Rng, replay string) {
 		nReg, nGrid, nops, nTwinBases = 3000, 1800, 40, 60
 	}
 	h.twins(rng, nTwinBases)
+	// style sheets whose count attributes differ from the element counts (opened from a file)
+	nLoose := 40
+	if r.Tier == "thorough" {
+		nLoose = 400
+	}
+	pc := func(real int) int { return rng.Pick2([]int{0, real, real + 1, real - 1, 5, 100, real}) }
+	for i := 0; i < nLoose; i++ {
+		h.genCaseFrom(rng, rng.Range(6, nops), false, fmt.Sprintf("resetc %d %d %d %d", pc(1), pc(2), pc(1), pc(1)))
+	}
 	for i := 0; i < nReg; i++ {
 		h.genCase(rng, rng.Range(8, nops), false)
 	}
